@@ -246,6 +246,10 @@ def all_variants():
                 "note": "every source file replaced by ast.unparse(ast.parse(file)): formatting, comments, quotes change; behaviour does not"})
     out.append({"id": "eq-all-locals-renamed", "type": "transform", "name": "rename-locals", "fires": [], "silent": list(ALLP),
                 "note": "every local variable of every function renamed (x -> x_): no rule may depend on a local's spelling"})
+    out.append({"id": "eq-all-operands-commuted", "type": "transform", "name": "commute", "fires": [], "silent": list(ALLP),
+                "note": "a+b -> b+a, a*b -> b*a (numeric operands), a==b -> b==a everywhere"})
+    out.append({"id": "eq-all-appends-as-method", "type": "transform", "name": "append", "fires": [], "silent": list(ALLP),
+                "note": "every `x += [e]` rewritten as `x.append(e)`"})
     for p in sorted(glob.glob(os.path.join(VERIF, "seeded", "fix-reverts", "F*.diff"))):
         k = os.path.basename(p)[:-5]
         out.append({"id": "revert-" + k, "type": "diff", "path": os.path.relpath(p, VERIF), "reverse": True,
